@@ -92,3 +92,44 @@ Example C03_template_family :
   map (fun e => fst (fst e)) (openapi_ops ex_family) =
     [s "/api/v1/items/{id}"; s "/api/v1/items/{item_id}"; s "/api/v1/items/{id}"].
 Proof. vm_compute. repeat split; reflexivity. Qed.
+
+(* Body shapes: what is left for the body once the URL has taken its fields does not matter — an RPC on
+   POST/PUT/PATCH (or on the defaulted verb) is body-carrying for all five generators even when its
+   request message is empty or fully path-bound ("action" endpoints such as POST /notes/{id}/archive),
+   and GET/DELETE never are. *)
+Theorem C03_body_by_verb : forall r : rpc_info,
+  rt_body (go_server r) = verb_has_body (eff_verb r) /\
+  rt_body (go_client r) = verb_has_body (eff_verb r) /\
+  rt_body (ts_client r) = verb_has_body (eff_verb r) /\
+  rt_body (ts_server r) = verb_has_body (eff_verb r) /\
+  rt_body (openapi r) = verb_has_body (eff_verb r).
+Proof. exact body_by_verb. Qed.
+Print Assumptions C03_body_by_verb.
+
+Theorem C03_body_same_verb : forall r1 r2 : rpc_info, eff_verb r1 = eff_verb r2 ->
+  rt_body (go_client r1) = rt_body (go_server r2) /\ rt_body (go_client r1) = rt_body (openapi r2) /\
+  rt_body (go_client r1) = rt_body (ts_server r2) /\ rt_body (go_client r1) = rt_body (ts_client r2).
+Proof. exact body_same_verb. Qed.
+Print Assumptions C03_body_same_verb.
+
+Definition mk_note (m p : str) (v : option verb) (q : list str) : rpc_info :=
+  {| ri_service := s "NoteService"; ri_gopkg := s "notes"; ri_base := s "/api/v1"; ri_method := m;
+     ri_has_cfg := true; ri_path := p; ri_verb := v; ri_query := q |}.
+(* ArchiveNote{id}, TagNote{id,tag}, PurgeTrash{} (verb defaulted), PatchNote{id} ; controls GetNote{id}, DropNote{id} *)
+Definition ex_body_shapes : list rpc_info :=
+  [ mk_note (s "ArchiveNote") (s "/notes/{id}/archive") (Some POST) [];
+    mk_note (s "TagNote") (s "/notes/{id}/tags/{tag}") (Some PUT) [];
+    mk_note (s "PurgeTrash") (s "/trash/purge") None [];
+    mk_note (s "PatchNote") (s "/notes/{id}") (Some PATCH) [];
+    mk_note (s "GetNote") (s "/notes/{id}") (Some GET) [];
+    mk_note (s "DropNote") (s "/notes/{id}") (Some DELETE) [] ].
+Example C03_body_shape_family :
+  forallb (fun r => match defects_C03 r with [] => true | _ => false end) ex_body_shapes = true /\
+  map (fun r => rt_body (go_client r)) ex_body_shapes = [true; true; true; true; false; false] /\
+  map (fun r => rt_body (go_server r)) ex_body_shapes = [true; true; true; true; false; false] /\
+  map (fun r => rt_body (ts_client r)) ex_body_shapes = [true; true; true; true; false; false] /\
+  map (fun r => rt_body (ts_server r)) ex_body_shapes = [true; true; true; true; false; false] /\
+  map (fun r => rt_body (openapi r)) ex_body_shapes = [true; true; true; true; false; false] /\
+  map (fun r => rt_pathvars (go_client r)) ex_body_shapes =
+    [[s "id"]; [s "id"; s "tag"]; []; [s "id"]; [s "id"]; [s "id"]].
+Proof. vm_compute. repeat split; reflexivity. Qed.
